@@ -103,7 +103,7 @@ TraceNext ==
                /\ (QuietAfter(l) => tasks = {})
                /\ l' = l + 1 /\ ph' = "start"
                /\ DropAnon(Dev(r))
-               /\ UNCHANGED <<users, probs, running, req, tasks, nextId, nreq, foreignRead, foreignEffect, wrongResult, stale>>
+               /\ UNCHANGED <<users, probs, running, req, tasks, nextId, nreq, foreignRead, foreignEffect, wrongResult, lostResult, stale>>
        [] r.kind = "db" ->
             \/ (\E t \in tasks : TaskStep(t) /\ ph' = ph /\ l' = l)
             \/ /\ (r.pending_writes = 0) => (tasks = {} /\ ModelDocs = SnapDocs(r.dump) /\ ModelUsers = SnapUsers(r.dump))
